@@ -1,22 +1,23 @@
 SPECIFICATION MCSpec
 CONSTANTS
   Groups = {"g1","g2"}
-  Names = {"s1","s2"}
-  Dev = {}
+  Names = {"s1"}
+  Dev = {"SqlRetakeFails","SqlSnapshotNeedsGroupRow","SqlPruneCountsRows","SqlRestoreReordersLeaves","SqlOffsetWraps","SqlLikeIgnoresCase"}
+  KnownFinding <- Silent
   Cap = 0
   MaxLimit = 10000
   DefLimit = 1000
-  Acts = {"groups","relays","snaps"}
-  Nids = {"n1","n2"}
+  Acts = {"groups","msgs"}
+  Nids = {}
   Epochs = {1}
   Ptrs = {}
   Relays = {"r1"}
   SecEpochs = {0}
   SecVals = {1}
-  MsgIds = {1}
-  CAs = {10}
-  PAs = {20}
-  MsgEpochs = {}
+  MsgIds = {1,2}
+  CAs = {10,11}
+  PAs = {20,21}
+  MsgEpochs = {1,2}
   MsgStates = {"processed"}
   Tags = {""}
   Wrappers = {1}
@@ -38,6 +39,7 @@ CONSTANTS
   Subs = {"abc"}
 VIEW MCView
 INVARIANT TypeInv
-INVARIANT InvC10Plain
-PROPERTY PropC09Plain
+INVARIANT InvC10
+INVARIANT InvC18
+PROPERTY PropC09
 CHECK_DEADLOCK FALSE
